@@ -11,8 +11,10 @@ pub mod c10;
 pub mod c11;
 pub mod c12;
 pub mod c13;
+pub mod c14;
 pub mod c15;
 pub mod c16;
+pub mod c20;
 pub mod fuzzrun;
 pub mod phys;
 pub mod xproc;
@@ -47,6 +49,8 @@ registry! {
     "C11" => c11,
     "C12" => c12,
     "C13" => c13,
+    "C14" => c14,
     "C15" => c15,
     "C16" => c16,
+    "C20" => c20,
 }
